@@ -73,6 +73,8 @@ def setup(param):
     global P, TS, TA
     P = dict(param or {})
     cls = P.get("cls", "plain")
+    if P.get("kind") == "hist":
+        return
     if P.get("kind", "prog") == "prog":
         src = M.pstmts(C03.gen_program(P.get("prog", 0)), M.ident)
     else:
@@ -112,6 +114,10 @@ DATA_TPLS = [
     "{{ rec('sa', items|selectattr('k', 'gt', b)|map(attribute='v')|list) }}", "{{ rec('ma', items|map(attribute='k', default=a)|list) }}", "{{ rec('sm', items|sum(attribute='v', start=a)) }}",
     "{% for i in it %}{% for j in it2 %}{{ rec('p', i, j, loop.index) }}{% endfor %}{{ rec('o', loop.index, loop.last) }}{% endfor %}",
     "{% macro m(x) %}{{ rec('mx', f(x)) }}{% for i in it %}{{ rec('mi', i) }}{% endfor %}{% endmacro %}{{ m(a) }}{% call m(b) %}{% endcall %}",
+    # non-numeric accumulation and argument containers: same result, same error class, arguments left alone
+    "{{ rec('sl', pairs|sum(start=[])) }}{{ rec('s0', pairs|sum(start=lst0)) }}{{ rec('after', lst0) }}",
+    "{{ rec('st', tups|sum(start=[])) }}", "{{ rec('stt', tups|sum(start=())) }}{{ rec('jl', pairs|map('join', '-')|join(lst0|join)) }}",
+    "{{ rec('b', it|batch(2, lst0)|map('list')|list) }}{{ rec('after', lst0) }}{{ rec('sl', it|slice(2, lst0)|map('list')|list) }}{{ rec('after', lst0) }}",
 ]
 
 
@@ -137,22 +143,22 @@ def data_ok(xs: List[int], a: int, b: int, q: int) -> bool:
         return v + 1
     xl = [v for v in xs]
     items = _items(xl, a, b)
-    base = dict(a=a, b=b, q=q)
-    s = _out(lambda rec: TS.render(rec=rec, f=f, it=list(xl), it2=[a, b], items=[dict(d) for d in items], **base))
+    base = dict(a=a, b=b, q=q, pairs=[[x, a] for x in xl], tups=[(x, b) for x in xl])
+    s = _out(lambda rec: TS.render(rec=rec, f=f, it=list(xl), it2=[a, b], items=[dict(d) for d in items], lst0=[a], **base))
     # async environment, plain data
-    a1 = _out(lambda rec: drive(TA.render_async(rec=rec, f=f, it=list(xl), it2=[a, b], items=[dict(d) for d in items], **base)))
+    a1 = _out(lambda rec: drive(TA.render_async(rec=rec, f=f, it=list(xl), it2=[a, b], items=[dict(d) for d in items], lst0=[a], **base)))
     # async environment, coroutine function + async iterables producing the same results
-    a2 = _out(lambda rec: drive(TA.render_async(rec=rec, f=af, it=agen_of(xl), it2=[a, b], items=agen_of([dict(d) for d in items]), **base)))
+    a2 = _out(lambda rec: drive(TA.render_async(rec=rec, f=af, it=agen_of(xl), it2=[a, b], items=agen_of([dict(d) for d in items]), lst0=[a], **base)))
     # generators (no len()) in both modes
-    s3 = _out(lambda rec: TS.render(rec=rec, f=f, it=(v for v in xl), it2=[a, b], items=(dict(d) for d in items), **base))
-    a3 = _out(lambda rec: drive(TA.render_async(rec=rec, f=f, it=(v for v in xl), it2=[a, b], items=(dict(d) for d in items), **base)))
+    s3 = _out(lambda rec: TS.render(rec=rec, f=f, it=(v for v in xl), it2=[a, b], items=(dict(d) for d in items), lst0=[a], **base))
+    a3 = _out(lambda rec: drive(TA.render_async(rec=rec, f=f, it=(v for v in xl), it2=[a, b], items=(dict(d) for d in items), lst0=[a], **base)))
     if P.get("tpl", 0) in NESTED_REUSE:
         # the iterable is consumed by the first use; with one-shot iterables only the list variant is comparable
         return s == a1
     return s == a1 and s == a2 and s3 == a3 and s == s3
 
 
-NESTED_REUSE = {17, 18}
+NESTED_REUSE = {17, 18, 22}
 
 
 # ---------------------------------------------------------------- (3) entry points needing an event loop (native)
@@ -205,6 +211,60 @@ def known_async_iterable_unaware_filter_ok():
         return False
 
 
+# ---------------------------------------------------------------- (4) histories: the same sequence of loads and renders in a sync and an async environment
+from jinja2 import DictLoader
+
+H_TPLS = {
+    "lib": "{% macro tag(x) %}[{{ brand }}:{{ x }}]{% endmacro %}{% set libv = brand|default('nobrand') %}",
+    "plain": "{% import 'lib' as lib %}{{ lib.tag(n) }}{{ lib.libv }}",
+    "from": "{% from 'lib' import tag, libv %}{{ tag(n) }}{{ libv }}",
+    "ctx": "{% import 'lib' as lib with context %}{{ lib.tag(n) }}{{ lib.libv }}",
+    "inc": "{% include 'plain' %}|{% include 'from' %}",
+    "child": "{% extends 'base' %}{% block b %}{% import 'lib' as l2 %}{{ l2.tag(n) }}{{ super() }}{% endblock %}",
+    "base": "<{% block b %}{{ brand|default('-') }}{% endblock %}>",
+}
+H_NAMES = ["plain", "from", "ctx", "inc", "child"]
+H_GLOBALS = [None, {"brand": "ACME"}, {"brand": "ZED", "extra": 1}]
+H_NOPS = len(H_NAMES) * len(H_GLOBALS) + 2
+
+
+def _h_run(asyncm, cls, ops):
+    env = CLASSES[cls](loader=DictLoader(H_TPLS), enable_async=asyncm)
+    out = []
+    n = 0
+    for op in ops:
+        n += 1
+        try:
+            if op < len(H_NAMES) * len(H_GLOBALS):
+                t = env.get_template(H_NAMES[op % len(H_NAMES)], globals=(dict(H_GLOBALS[op // len(H_NAMES)]) if H_GLOBALS[op // len(H_NAMES)] is not None else None))
+                r = drive(t.render_async(n=n)) if asyncm else t.render(n=n)
+                out.append(str(r))
+            elif op == H_NOPS - 2:
+                env.globals["brand"] = "ENV%d" % n
+            else:
+                t = env.get_template("lib")
+                m = drive(t.make_module_async({"brand": "MM"})) if asyncm else t.make_module({"brand": "MM"})
+                out.append(str(drive(m.tag(n)) if asyncm else m.tag(n)))
+        except Exception as e:
+            out.append("exc:" + type(e).__name__)
+    return out
+
+
+def hist_ok(ops: List[int]) -> bool:
+    """
+    pre: len(ops) == HLEN() and all(0 <= o < H_NOPS for o in ops)
+    post: _
+    """
+    seq = [P.get("first_op", 0)] + [pick(o, H_NOPS) for o in ops]
+    with NoTracing():
+        cls = P.get("cls", "plain")
+        return _h_run(False, cls, seq) == _h_run(True, cls, seq)
+
+
+def HLEN():
+    return P.get("hlen", 2)
+
+
 def conditions(tier, seed):
     th = tier == "thorough"
     to = 120 if th else 30
@@ -222,6 +282,13 @@ def conditions(tier, seed):
             out.append(Cond(f"data[{ti}][{cls}] {DATA_TPLS[ti][:50]}", "data_ok", mode="A", param={"kind": "data", "tpl": ti, "cls": cls}, timeout=to,
                             witnesses=[[[3, -1, 2], 1, 2, 1], [[], 0, 0, 0], [[4, 4, 7], 4, 5, 2]],
                             bounds="int list <= 3 as list / generator / async generator, sync function vs coroutine function, any a, b, loop-attribute order q"))
+    for first in range(H_NOPS):
+        cls = ["plain", "sandbox", "immutable"][(first + seed) % 3]
+        hl = 3 if th else 2
+        out.append(Cond(f"history[first op {first}][{cls}]", "hist_ok", mode="B", param={"kind": "hist", "first_op": first, "cls": cls, "hlen": hl}, timeout=to * 3,
+                        witnesses=[[[0, 5, 0][:hl]], [[6, 1, 11][:hl]], [[H_NOPS - 2, 3, H_NOPS - 1][:hl]]],
+                        bounds=f"a fresh environment per sequence; first operation fixed, then every sequence of {hl} operations out of {H_NOPS} (load one of {H_NAMES} with per-template globals "
+                               f"none / brand / brand+extra and render it, change an environment global, make_module with variables); sync world == async world"))
     out.append(Cond("entry points on an event loop", "entry_ok", mode="B", param={}, timeout=to * 3,
                     witnesses=[[0, 0, 0], [3, 2, 0], [1, 4, 2]], bounds=f"4 environment classes x {len(E_TPLS)} templates x {len(ROWS)} data rows; render/generate on async env, asyncio.run(render_async/generate_async)"))
     return out
